@@ -3,6 +3,7 @@ CONSTANTS
   SharedField = "none"
   MemoBound = TRUE
   SampleKinds = FALSE
+  FreshVariants = FALSE
   HistLen = 4
 POSTCONDITION Written
 CHECK_DEADLOCK FALSE
